@@ -12,7 +12,8 @@
     nervusdb-query/src/executor/write_path.rs         execute_set (per matched row: evaluate, then stage)
     nervusdb-storage/src/engine.rs  WriteTxn (staged = created_nodes + memtable), commit
   The two switches `atomic` and `ryw` select the semantics: the code is `(false, false)`;
-  `Spec.TxnSem` uses the other combinations.  Core only; `Generated.CapiTxn` is re-read from the source on every check.
+  `Spec.TxnSem` uses the other combinations.  After fix (statement savepoint in execute_write_in_txn) the code is `(true, false)`;
+  `(false, false)` is the pinned tree, kept for the counterexample theorems.  Core only; `Generated.CapiTxn` is re-read from the source on every check.
 -/
 import Nervus.Model.Generated.CapiTxn
 namespace Nervus.Txn
@@ -227,11 +228,12 @@ def partialEffect (σ : State) (s : Stmt) : Bool :=
     let r := exec σ.committed (σ.allocated + adds ps) s
     r.failed && !r.prims.isEmpty
 
-/-- C13 trigger over a history: some statement of an explicit transaction fails after staging -/
+/-- C13 trigger over a history of the *pinned tree* (`step false false`, before the statement savepoint):
+    some statement of an explicit transaction fails after staging -/
 def anyPartialEffect (σ : State) : List Op → Bool
   | [] => false
   | op :: ops =>
-    (match op with | .tq s => partialEffect σ s | _ => false) || anyPartialEffect (codeStep σ op).1 ops
+    (match op with | .tq s => partialEffect σ s | _ => false) || anyPartialEffect (step false false σ op).1 ops
 
 /-- C24 trigger, on the statement sequence alone: a statement of an explicit transaction reads a label that an
     earlier statement of the same transaction writes.  The tracker state is `none` outside a transaction and
